@@ -3,7 +3,7 @@
    jsontodsl.go (Model/Printer.v), tied to the code by the correspondence of every run;
    [expressible] (Spec/Expressible.v) is written without the printer's validator counter. *)
 From Verif Require Import Base.Str Base.Outcome Model.Ast Model.Token Model.Parser Model.Listener Model.Printer
-  Spec.Sem Spec.Expressible Spec.Normalize Proofs.PrinterExpressible Proofs.Lossless.
+  Spec.Sem Spec.Expressible Spec.Normalize Proofs.PrinterExpressible Proofs.Lossless Proofs.ParserComplete Proofs.LosslessTokens.
 
 (* 1. on every rewrite a DSL document can carry, the printer's walk succeeds and its counter equals the
       number of direct assignments in the tree — for all trees, of any depth and operator nesting *)
@@ -65,3 +65,15 @@ Example C02_normalize_example :
   normalize (UDiff (UUnion [UComputed (lit "a"); UThis ThisEmpty; UTTU (lit "p") (lit "b")]) (UInter [UComputed (lit "c")]))
   = UDiff (UUnion [UThis ThisEmpty; UComputed (lit "a"); UTTU (lit "p") (lit "b")]) (UComputed (lit "c")).
 Proof. reflexivity. Qed.
+
+(* 8. ... and that tree is what the parser model returns for its canonical token sequence (printer -> tokens ->
+      parser -> denotation = normalize u).  [stops k]: what follows the definition does not start with white space
+      (a line break or the end of input).  Still not mechanised: that the characters of the printed line lex to
+      these tokens (Model/Lexer.v against the generated lexer: token correspondence of every run). *)
+Theorem C02_printed_tree_parses_back : forall refs u k,
+  carriable u = true -> expressible u = true -> refs <> [] -> stops k ->
+  let d := rdef_of refs u in
+  p_def (S (depth_def (rd_first d) (rd_rest d))) true (toks_def (rd_first d) (rd_op d) (rd_rest d) ++ k)
+    = Some ((rd_first d, rd_op d, rd_rest d), k) /\
+  sem_rdef d = normalize u.
+Proof. exact printed_tree_parses_back. Qed.
